@@ -1,5 +1,5 @@
 PROP = {
-    "thm": ["Umya.Thm.C09", "Umya.Thm.C09Lex"],
+    "thm": ["Umya.Thm.C09", "Umya.Thm.C09Lex", "Umya.Thm.C09LexWF"],
     "harness": "c09",
     "level": "proof",
     "stateful": False,
@@ -13,7 +13,7 @@ PROP = {
     "level_note": "Trusted: Lean kernel + 3 standard axioms; the hand model's faithfulness as exercised by the correspondence stream; "
                   "fancy_regex on the coordinate regex (modelled in C17); Rust f64 FromStr acceptance grammar (modelled, sampled); "
                   "ASCII-only upper-casing.",
-    "expect_theorems": ["C09_kernels_match_source", "C09_tables_match_source", "C09_terminates", "C09_terminates_fails", "C09_lex_invariant", "C09_lex1_render", "C09_no_panic", "C09_clean_partial", "C09_no_panic_ast", "C09_identity_partial", "C09_translate_ref", "C09_translate_nonref", "C09_translate_partial", "C09_lex_print", "C09_identity_print", "C09_translate_text"],
+    "expect_theorems": ["C09_kernels_match_source", "C09_tables_match_source", "C09_terminates", "C09_terminates_fails", "C09_lex_invariant", "C09_lex1_render", "C09_no_panic", "C09_clean_partial", "C09_no_panic_ast", "C09_identity_partial", "C09_translate_ref", "C09_translate_nonref", "C09_translate_partial", "C09_lex_print", "C09_identity_print", "C09_translate_text", "C09_lex_print_wf", "C09_identity_print_wf", "C09_translate_text_wf"],
     "rule": "formulas generated from the AST grammar of the property (depth <= 6, <= 110 chars; operators incl. two-character comparators, "
             "unary +/-, %, nested calls with empty arguments, parenthesised unions, intersections, string literals with embedded quotes, "
             "numbers incl. scientific, booleans, all 7 error literals, names incl. ones that start like a coordinate, relative/absolute/mixed "
@@ -31,6 +31,6 @@ PROP = {
     ],
     "assumptions": ["ranges are written normalised (first corner <= second corner), as Excel writes them",
                     "sheet names in quotes do not begin with an apostrophe-only ambiguity: quoted names are printed with doubled apostrophes"],
-    "partial_clauses": ["C09_identity: proved = rendered text is the input with only blanks deleted (BlankErasure), for every input accepted by the independent scanner Spec.Clean, side condition: no function name starts with @; NOT proved for arbitrary Clean input = re-tokenising the rendered text gives the same token list (harness oracle 'retokenize-differs'); for printed expressions of the LexOk fragment it IS proved: the token list of print e is tokensOf e (C09_lex_print), it renders back to print e and re-tokenises to the same list (C09_identity_print)", "C09_clean: proved for every AST without opaque atoms (structured references), array constants of numbers / negative numbers / strings / booleans / errors included; structured / unquoted external references are tied to Spec.Clean by the 'clean' requests of the correspondence stream only", "C09_translate: proved at reference level for every well-formed reference and every (dc,dr) (C09_translate_ref), for token lists (C09_translate_partial), and for whole texts: setCoordinate (print e) dc dr = print (translate e dc dr) for every e with LexOk e and RefsOk e (C09_translate_text, via C09_lex_print: parse('=' ++ print e) = tokensOf e). LexOk (explicit, on the leaves): no intersection, array constant or structured reference anywhere in e; numbers are texts of ordinary characters accepted by parse::<f64> (no exponent sign: 1E+5 is cut in three by the tokenizer); names / function names / unquoted sheet qualifiers are non-empty texts of ordinary characters; names and reference texts are not f64 / TRUE / FALSE (for reference texts this always holds but is a hypothesis, not proved); function names do not start with @. RefsOk: references well-formed, names inert (no '!', no colon-separated piece that parses as a corner). NOT proved = the same for expressions with intersections (pass 2), array constants, structured references, and for texts with optional blanks - correspondence check + harness oracle only; the share of generated expressions with LexOk is counted per run (tag.lexok / tag.lexok-not) and their exact printed text goes through both tokenizers (tag.lexprint)", "array constants are inside Spec.Clean and the AST grammar since fix f50ad32 (C09_no_panic, C09_identity_partial, C09_clean_partial cover them; the token mark is observed through the verif_array_part hook); '@' prefixes are outside the property grammar (pass 3 strips '@' from function names: =@SUM(A1) loses it - seen, not in the generated grammar)"],
+    "partial_clauses": ["C09_identity: proved = rendered text is the input with only blanks deleted (BlankErasure), for every input accepted by the independent scanner Spec.Clean, side condition: no function name starts with @; NOT proved for arbitrary Clean input = re-tokenising the rendered text gives the same token list (harness oracle 'retokenize-differs'); for printed expressions of the LexOk fragment it IS proved: the token list of print e is tokensOf e (C09_lex_print), it renders back to print e and re-tokenises to the same list (C09_identity_print); the same with LexOk' (references well-formed, nothing assumed about how pass 3 classifies their text): C09_lex_print_wf, C09_identity_print_wf", "C09_clean: proved for every AST without opaque atoms (structured references), array constants of numbers / negative numbers / strings / booleans / errors included; structured / unquoted external references are tied to Spec.Clean by the 'clean' requests of the correspondence stream only", "C09_translate: proved at reference level for every well-formed reference and every (dc,dr) (C09_translate_ref), for token lists (C09_translate_partial), and for whole texts: setCoordinate (print e) dc dr = print (translate e dc dr) for every e with LexOk e and RefsOk e (C09_translate_text, via C09_lex_print: parse('=' ++ print e) = tokensOf e). LexOk (explicit, on the leaves): no intersection, array constant or structured reference anywhere in e; numbers are texts of ordinary characters accepted by parse::<f64> (no exponent sign: 1E+5 is cut in three by the tokenizer); names / function names / unquoted sheet qualifiers are non-empty texts of ordinary characters; names are not f64 / TRUE / FALSE; reference texts are not f64 / TRUE / FALSE - a hypothesis inside LexOk, DISCHARGED in the _wf forms: C09_lex_print_wf / C09_identity_print_wf / C09_translate_text_wf take LexOk' (= LexOk with r.WF on every reference instead of that conjunct), LexOk' e -> LexOk e is proved (isRangeText_of_WF: the text of every well-formed cell / range / whole-column / whole-row reference, any $ flags, no / plain / quoted qualifier, is rejected by the modelled f64 grammar and is not TRUE / FALSE; by a decomposition of parseF64Ok: an accepted text is a signed nan / inf / infinity or starts with a digit, '.', or sign and consists of digits . e E + -); function names do not start with @. RefsOk: references well-formed, names inert (no '!', no colon-separated piece that parses as a corner). NOT proved = the same for expressions with intersections (pass 2), array constants, structured references, and for texts with optional blanks - correspondence check + harness oracle only; the share of generated expressions with LexOk is counted per run (tag.lexok / tag.lexok-not) and their exact printed text goes through both tokenizers (tag.lexprint)", "array constants are inside Spec.Clean and the AST grammar since fix f50ad32 (C09_no_panic, C09_identity_partial, C09_clean_partial cover them; the token mark is observed through the verif_array_part hook); '@' prefixes are outside the property grammar (pass 3 strips '@' from function names: =@SUM(A1) loses it - seen, not in the generated grammar)"],
     "technique": "Lean 4 proof on an executable model + differential correspondence on every run",
 }
